@@ -225,6 +225,7 @@ func (x *Exec) run() {
 		// the function never returns normally (always panics): nothing to prove at exit
 		return
 	}
+	exitPC := final.pc
 	post := x.postEnv(final)
 	for i, e := range x.ct.Ensures {
 		parts := splitConj(e.Expr)
@@ -238,7 +239,7 @@ func (x *Exec) run() {
 		}
 	}
 	x.frameObligations(final)
-	vc.obls = append(vc.obls, &Obligation{Name: vc.fn + "#cover.exit", Kind: "cover", Func: vc.fn, PC: final.pc, Goal: tFalse, Cover: true, Text: "exit reachable (contract not contradictory)"})
+	vc.obls = append(vc.obls, &Obligation{Name: vc.fn + "#cover.exit", Kind: "cover", Func: vc.fn, PC: exitPC, Goal: tFalse, Cover: true, Text: "exit reachable (contract not contradictory)"})
 }
 
 func splitConj(e SExpr) []SExpr {
